@@ -346,9 +346,13 @@ pub fn run_c16(ctx: &mut Ctx) {
                 s.push(VALUE_ALPHABET[(x % a) as usize]);
                 x /= a;
             }
+            // the value sits in every structural position: followed by another attribute, last
+            // attribute of a link that is followed by another link, and last attribute of the last link
             let doc = vec![
-                Link { target: "/x".into(), attrs: vec![("k".into(), AttrKind::Plain(s.clone())), ("q".into(), AttrKind::Quoted(s.clone())), ("n".into(), AttrKind::U16(7))] },
-                Link { target: "/y".into(), attrs: vec![("z".into(), AttrKind::Quoted(s.clone()))] },
+                Link { target: "/x".into(), attrs: vec![("k".into(), AttrKind::Plain(s.clone())), ("n".into(), AttrKind::U16(7)), ("q".into(), AttrKind::Quoted(s.clone()))] },
+                Link { target: "/y".into(), attrs: vec![("z".into(), AttrKind::Quoted(s.clone())), ("p".into(), AttrKind::Plain(s.clone()))] },
+                Link { target: "/w".into(), attrs: vec![] },
+                Link { target: "/v".into(), attrs: vec![("l".into(), AttrKind::Quoted(s.clone()))] },
             ];
             c16_one(rep, &doc, idx % 2 == 0);
             rep.distinct(fnv(s.as_bytes()));
